@@ -313,6 +313,32 @@ func c02Child(r *ev.Run, batch int) {
 				twinRep := twin.TransactWire(cloneWire(wire), true)
 				a, b := canonReply(liveRep), canonReply(twinRep)
 				tpost, terr := m.Snapshot(twin.DB)
+				if a != b || (terr == nil && post.Diff(tpost) != "") {
+					// is the answer to this transaction deterministic at all? Replay it on
+					// fresh databases loaded with the same rows.
+					answers := map[string]bool{}
+					for k := 0; k < 8; k++ {
+						if fe, err := loadState(m, pre); err == nil {
+							fr := fe.TransactWire(cloneWire(wire), true)
+							key := canonReply(fr)
+							if fp, err := m.Snapshot(fe.DB); err == nil {
+								key += "|" + fp.Hash()
+							}
+							answers[key] = true
+						}
+					}
+					if len(answers) > 1 {
+						// the library answers this transaction differently from run to run on
+						// identical databases (map iteration order): not attributable to the
+						// failed transactions, judged by C03/C06/C08
+						r.Count("nondeterministic_answers_not_attributable_to_failed_transactions", 1)
+						if !restart() {
+							break
+						}
+						failedSince = nil
+						continue
+					}
+				}
 				if a != b {
 					r.Violation("C02/twin-reply-differs/after:"+strings.Join(uniq(failedSince), "+"), "after failed transactions the database answers a later transaction differently from a twin that never saw them",
 						wit(map[string]interface{}{"live_reply": a, "twin_reply": b, "failed_before": failedSince}))
